@@ -573,7 +573,9 @@ class RelayDriver:
                    int=int_code(S.interest()[0]) if not (self.final_res or S.client.closed) else 0,
                    shutdown_exc=getattr(S, 'shutdown_exc', None) and type(S.shutdown_exc).__name__,
                    trace=list(S.trace), queued=b''.join(self.cq),
-                   client_log=[l for l in S.client.log if l[0] in ('send', 'send_err', 'close')][-40:])
+                   client_log=[l for l in S.client.log if l[0] in ('send', 'send_err', 'close')][-40:],
+                   up_left=sum(len(x) for x in self.up_plan if isinstance(x, (bytes, bytearray))),
+                   up_left_first=next((x if isinstance(x, str) else 'data' for x in self.up_plan), None))
         S.close()
         return dict(steps=self.steps, oracles=self.oracles, fin=fin, events=self.executed)
 
@@ -690,11 +692,24 @@ def connect_request(rng):
     return ('CONNECT %s:%d HTTP/1.1\r\nHost: %s:%d\r\n\r\n' % (host, port, host, port)).encode()
 
 
-def http_request(rng, keepalive=True):
+def http_request(rng, keepalive=True, variants=False):
     host = rng.choice(['h.example', 'origin.test'])
     path = rng.choice(['/', '/a', '/x/y?z=1'])
     extra = rng.choice(['', 'Accept: */*\r\n', 'Proxy-Connection: keep-alive\r\n', 'X-A: b\r\n'])
-    return ('GET http://%s%s HTTP/1.1\r\nHost: %s\r\n%s\r\n' % (host, path, host, extra)).encode()
+    version = 'HTTP/1.1'
+    if variants:
+        # requests that do NOT ask for a persistent connection (round-3 seed C01-r3-2: the relay must still carry every
+        # response the upstream sends - interim 1xx then final - until a PEER ends the exchange)
+        r = rng.random()
+        if r < 0.2:
+            extra += 'Connection: close\r\n'
+        elif r < 0.3:
+            version = 'HTTP/1.0'
+        elif r < 0.36:
+            version = 'HTTP/1.0'; extra += 'Connection: keep-alive\r\n'
+        elif r < 0.42:
+            extra += 'Connection: Keep-Alive\r\n'
+    return ('GET http://%s%s %s\r\nHost: %s\r\n%s\r\n' % (host, path, version, host, extra)).encode()
 
 
 def web_request(rng, path):
@@ -774,7 +789,7 @@ def gen_relay(rng, profile='relay', n_events=None, max_send=None, handler=None):
     elif exchange == 'notconnect':
         first = http_request(rng)
     elif exchange in ('http', 'malformed-upstream'):
-        first = http_request(rng)
+        first = http_request(rng, variants=(profile != 'timed'))
     elif exchange == 'web404':
         first = web_request(rng, rng.choice(['/nothing-here', '/', '/favicon.ico']))
     elif exchange == 'webroute':
